@@ -193,8 +193,8 @@ func (r Relation) Less(v Value) bool {
 		return r.Kind() < v.Kind()
 	}
 	r2 := v.(Relation)
-	if r.attrs.LessNamesSlice(r2.attrs) && !r.attrs.EqualNamesSlice(r2.attrs) {
-		return true
+	if !r.attrs.EqualNamesSlice(r2.attrs) {
+		return r.attrs.LessNamesSlice(r2.attrs)
 	}
 	if r.Count() != r2.Count() {
 		return r.Count() < r2.Count()
